@@ -122,9 +122,11 @@ def go_again_session(exe, fen, park_ms=500, wait=8.0):
     while time.time() < lim and not any(l.startswith('bestmove') for _, l in lines):
         time.sleep(0.001)
     first = sum(1 for _, l in lines if l.startswith('bestmove'))
+    t_first = next((t for t, l in lines if l.startswith('bestmove')), None)
     send('position fen ' + fen)
     send('go depth 1')
-    lim = time.time() + wait
+    # the second search is the same search: give it the time the first one took on this machine under this load, several times over
+    lim = time.time() + max(wait, 6.0 * (t_first or 0.0) + 4.0)
     while time.time() < lim and sum(1 for _, l in lines if l.startswith('bestmove')) < 2:
         time.sleep(0.005)
     time.sleep(0.2)
@@ -135,5 +137,5 @@ def go_again_session(exe, fen, park_ms=500, wait=8.0):
     except Exception:
         p.kill()
     th.join(timeout=1); the.join(timeout=1)
-    return {'first': first, 'bestmoves': [l for _, l in lines if l.startswith('bestmove')], 'parked': any('afterbest' in l for _, l in errs),
+    return {'first': first, 't_first': t_first, 'bestmoves': [l for _, l in lines if l.startswith('bestmove')], 'parked': any('afterbest' in l for _, l in errs),
             'stderr': '\n'.join(l for _, l in errs)}
